@@ -162,6 +162,8 @@ def metamorphic(ctx):
 
 
 def run(ctx):
+    import warnings
+    warnings.simplefilter('ignore')
     from pynetdicom2 import statuses
     ctx.rule = ('exhaustive product of all 65536 codes x (23 message classes + None); a case is '
                 'non-trivial when the code is 0, a PS3.7 Annex C general code, or lies in a '
@@ -172,6 +174,7 @@ def run(ctx):
         'codes outside every table may be Failure, or the class PS3.7 assigns by pattern '
         '(Warning for 0001/0107/0116/Bxxx, Cancel FE00, Pending FF00/FF01)',
         'a code without a service-specific entry for the command must get the same class as without a command',
+        'the command may be given as the response class, an instance of it or a subclass: same classification',
         'classification is a function of (code, command) only: also checked in code-major order and right after a lookup of the same code for another command']
     cmds = [None] + message_classes()
     for cmd in cmds:
@@ -200,6 +203,7 @@ def run(ctx):
         st = statuses.Status(code, cmd)
         ctx.samples.append({'command': cmd.__name__, 'code': code, 'status_type': st.status_type})
     history(ctx, statuses, cmds)
+    alt_forms(ctx, statuses, cmds)
     metamorphic(ctx)
 
 
@@ -234,6 +238,36 @@ def history(ctx, statuses, cmds):
     ctx.label('history-order', n)
 
 
+def alt_forms(ctx, statuses, cmds):
+    """The `command` argument names a DIMSE command: the library's response class, an instance of it (the message
+    the status came with) and an application subclass all name the same command, so they classify alike."""
+    n = 0
+    for cmd in cmds:
+        if cmd is None:
+            continue
+        sub = type('App' + cmd.__name__, (cmd,), {})
+        forms = (('instance', cmd()), ('subclass', sub), ('subclass instance', sub()))
+        cf = cmd.command_field
+        codes = [c for c in range(0x10000) if specific_class(cf, c) is not None] if ctx.thorough or \
+            cf in (C_STORE_RSP, C_FIND_RSP, C_GET_RSP, C_MOVE_RSP) else []
+        codes = sorted(set(codes) | GENERAL_CODES | set(range(0, 0x10000, 1021)))
+        for code in codes:
+            want = statuses.Status(code, cmd).status_type
+            for fname, form in forms:
+                n += 1
+                try:
+                    got = statuses.Status(code, form).status_type
+                except Exception as exc:
+                    ctx.fail('C18:alt-form:exception:%s' % type(exc).__name__, 'Status(0x%04X, <%s of %s>) raised %r'
+                             % (code, fname, cmd.__name__, exc), {'kind': 'alt-form', 'command': cmd.__name__, 'code': code, 'form': fname})
+                    continue
+                if got != want:
+                    ctx.fail('C18:alt-form:%s' % fname.replace(' ', '-'), 'Status(0x%04X, <%s of %s>) is %s, but %s for the class itself'
+                             % (code, fname, cmd.__name__, got, want), {'kind': 'alt-form', 'command': cmd.__name__, 'code': code, 'form': fname})
+    ctx.evaluations += n
+    ctx.label('alt-form-of-command', n)
+
+
 def replay(case):
     from pynetdicom2 import statuses, dimsemessages
     if case.get('kind') == 'metamorphic':
@@ -242,6 +276,15 @@ def replay(case):
         metamorphic(c)
         for key, ent in c.failures.items():
             raise Violation(key, ent['what'], ent['case'])
+        return
+    if case.get('kind') == 'alt-form':
+        cmd = getattr(dimsemessages, case['command'])
+        sub = type('App' + cmd.__name__, (cmd,), {})
+        form = {'instance': cmd(), 'subclass': sub, 'subclass instance': sub()}[case['form']]
+        want, got = statuses.Status(case['code'], cmd).status_type, statuses.Status(case['code'], form).status_type
+        if got != want:
+            raise Violation('C18:alt-form', 'Status(0x%04X, <%s of %s>) is %s, but %s for the class itself'
+                            % (case['code'], case['form'], case['command'], got, want), case)
         return
     cmd = None
     if case['command_field'] is not None:
